@@ -34,7 +34,7 @@ def _collect():
 GROUPS = {"C08": _collect()}
 PROPS = {
     "C08": dict(
-        level="other",
+        level="other", safety_only=True,
         explanation="Per-function claim: every listed group enforces one extracted function's contract with all of cbmc's memory-safety and "
                     "arithmetic checks on, for all inputs satisfying the function's precondition (unbounded sizes unless the group says bounded). "
                     "It is NOT a proof about every public operation: the glue between the public API and these functions, xtensor itself, the "
